@@ -126,3 +126,150 @@ Example jaspar_record_read :
   = [Ok (Some {| rid := [120%N]; rdesc := None;
                  rmatrix := [[1;3;7;5;0]; [2;4;8;6;0]]%N |}); Ok None].
 Proof. vm_compute. reflexivity. Qed.
+
+(* ================= round 3: streams whose fill_buf fails, and the polling consumer =================
+   Event streams (IoErr.v): what successive fill_buf() calls deliver is a data slice, an io::Error, or
+   ErrorKind::Interrupted (retried by std's read_until).  [wf_estream] only says that no data slice is
+   empty.  The polling consumer (IoPoll.v) calls next() a fixed number of times WHATEVER the calls
+   return: after errors (parse errors, invalid UTF-8, I/O errors) and after End as well. *)
+From LMIo Require Import GenIoAbc GenIoReader IoErr IoErrUProofs IoErrJBase IoErrJLift IoPoll IoPollProofs.
+
+(* C15 "each request ... returns a record, an error or end of input": n requests give exactly n
+   outcomes, none of them a panic site or OutOfFuel -- every stream, every fault script, every n.
+   The JASPAR statements hold for the reader AS THE TRANSLATOR FOUND IT (GenIoAbc: the slice guard of
+   df3a2dd and the constants of `unwrap_or(U).saturating_sub(S)`): without the guard, or with U > S,
+   these proofs fail (see polls_unguarded_refuted). *)
+Theorem reader_polls_total_jaspar : forall n caps es, wf_estream es ->
+  length (jaspar_polls_e n caps es) = n /\ Forall ok_outcome (jaspar_polls_e n caps es).
+Proof.
+  intros n caps es. apply (j_polls_e_new_total (j_record false) pspec_j_record). apply Nat.leb_le. reflexivity.
+Qed.
+
+Theorem reader_polls_total_jaspar16 : forall A n caps es,
+  (forall c k, aindex A c = Some k -> k < aK A) -> wf_estream es ->
+  length (jaspar16_polls_e A n caps es) = n /\ Forall ok_outcome (jaspar16_polls_e A n caps es).
+Proof.
+  intros A n caps es HA. apply (j_polls_e_new_total (j16_record A) (pspec_j16_record A HA)).
+  apply Nat.leb_le. reflexivity.
+Qed.
+
+Theorem reader_polls_total_uniprobe : forall A parse_f32 n es,
+  (forall c k, aindex A c = Some k -> k < aK A) -> wf_estream es ->
+  length (uniprobe_polls_e A parse_f32 n es) = n /\ Forall ok_outcome (uniprobe_polls_e A parse_f32 n es).
+Proof. intros A parse_f32 n es HA. exact (uniprobe_polls_e_total A HA parse_f32 n es). Qed.
+
+(* End is final: once a request answered End every later request answers End (no record or error
+   resurfaces, whatever the stream still held when a failed read_line dropped its bytes) *)
+Theorem reader_end_is_final_jaspar : forall n caps es, wf_estream es ->
+  forall i j, nth_error (jaspar_polls_e n caps es) i = Some (Ok None) -> i <= j ->
+              j < length (jaspar_polls_e n caps es) -> nth_error (jaspar_polls_e n caps es) j = Some (Ok None).
+Proof. intros n caps es H. apply end_final_sound. apply j_polls_e_new_end_final. exact H. Qed.
+
+Theorem reader_end_is_final_jaspar16 : forall A n caps es, wf_estream es ->
+  forall i j, nth_error (jaspar16_polls_e A n caps es) i = Some (Ok None) -> i <= j ->
+              j < length (jaspar16_polls_e A n caps es) -> nth_error (jaspar16_polls_e A n caps es) j = Some (Ok None).
+Proof. intros A n caps es H. apply end_final_sound. apply j_polls_e_new_end_final. exact H. Qed.
+
+Theorem reader_end_is_final_uniprobe : forall A parse_f32 n es,
+  (forall c k, aindex A c = Some k -> k < aK A) -> wf_estream es ->
+  forall i j, nth_error (uniprobe_polls_e A parse_f32 n es) i = Some (Ok None) -> i <= j ->
+              j < length (uniprobe_polls_e A parse_f32 n es) ->
+              nth_error (uniprobe_polls_e A parse_f32 n es) j = Some (Ok None).
+Proof.
+  intros A parse_f32 n es HA H. apply end_final_sound. exact (uniprobe_polls_e_end_final A HA parse_f32 n es H).
+Qed.
+
+(* the extracted boolean the driver applies to the implementation's outcome lists means that *)
+Theorem end_final_is_sound : forall {C} (l : list (outcome C)), end_final l = true ->
+  forall i j, nth_error l i = Some (Ok None) -> i <= j -> j < length l -> nth_error l j = Some (Ok None).
+Proof. exact @end_final_sound. Qed.
+
+(* the consumer that stops at End / the first error terminates on failing streams too:
+   records, then exactly one End or error (fuel = data bytes + 2 calls is enough) *)
+Theorem reader_total_faults_jaspar : forall caps es, wf_estream es -> Holds_c15 (jaspar_read_e caps es).
+Proof.
+  intros caps es. apply (j_read_e_total (j_record false) pspec_j_record). apply Nat.leb_le. reflexivity.
+Qed.
+
+Theorem reader_total_faults_jaspar16 : forall A caps es,
+  (forall c k, aindex A c = Some k -> k < aK A) -> wf_estream es -> Holds_c15 (jaspar16_read_e A caps es).
+Proof.
+  intros A caps es HA. apply (j_read_e_total (j16_record A) (pspec_j16_record A HA)). apply Nat.leb_le. reflexivity.
+Qed.
+
+Theorem reader_total_faults_uniprobe : forall A parse_f32 es,
+  (forall c k, aindex A c = Some k -> k < aK A) -> wf_estream es -> Holds_c15 (uniprobe_read_e A parse_f32 es).
+Proof. intros A parse_f32 es HA. exact (uniprobe_read_e_total A HA parse_f32 es). Qed.
+
+(* on streams without error events the event-stream readers ARE the readers of the C14 theorems *)
+Theorem fault_free_agree_jaspar : forall caps s, wf_stream s -> jaspar_read_e caps (of_stream s) = jaspar_read caps s.
+Proof. exact jaspar_read_e_of_stream. Qed.
+
+Theorem fault_free_agree_jaspar16 : forall A caps s, wf_stream s ->
+  jaspar16_read_e A caps (of_stream s) = jaspar16_read A caps s.
+Proof. exact jaspar16_read_e_of_stream. Qed.
+
+Theorem fault_free_agree_uniprobe : forall A parse_f32 s,
+  uniprobe_read_e A parse_f32 (of_stream s) = uniprobe_read A parse_f32 s.
+Proof. exact uniprobe_read_e_of_stream. Qed.
+
+(* chunk independence up to the first I/O error: two fault scripts with the same bytes before their
+   first (non-Interrupted) error give the same outcomes, error included *)
+Theorem reader_same_until_error_uniprobe : forall A parse_f32 F fuel es1 es2, same_until_error es1 es2 ->
+  u_run_e A parse_f32 F fuel true (u_new_e es1) = u_run_e A parse_f32 F fuel true (u_new_e es2).
+Proof. exact uniprobe_same_until_error. Qed.
+
+Theorem reader_same_until_error_jaspar : forall U S precord fuel caps es1 es2,
+  same_until_error es1 es2 -> snd (fst (read_until_e 62 es1)) = false ->
+  j_run_e precord fuel true caps 0 (j_new_e U S es1) = j_run_e precord fuel true caps 0 (j_new_e U S es2).
+Proof. exact jaspar_read_same_until_error. Qed.
+
+Check reader_polls_total_jaspar : forall n caps es, wf_estream es ->
+  length (jaspar_polls_e n caps es) = n /\ Forall ok_outcome (jaspar_polls_e n caps es).
+Check reader_polls_total_uniprobe : forall A parse_f32 n es,
+  (forall c k, aindex A c = Some k -> k < aK A) -> wf_estream es ->
+  length (uniprobe_polls_e A parse_f32 n es) = n /\ Forall ok_outcome (uniprobe_polls_e A parse_f32 n es).
+
+(* ---------- witnesses ---------- *)
+
+(* df3a2dd: an I/O error inside Reader::new (buffer left empty, start = 0), then data: the unguarded
+   `&buffer[start..=start + n]` is out of bounds on the first next() ... *)
+Lemma polls_unguarded_refuted :
+  jaspar_polls_e_unguarded 2 (fun _ => 0) [EvErr false; EvData [62;120;10]%N] = [Panic 32].
+Proof. vm_compute. reflexivity. Qed.
+
+(* ... the guarded reader answers a parse error: ">" alone, then ">x\n" again and again (sticky) *)
+Example polls_guarded :
+  jaspar_polls_e 3 (fun _ => 0) [EvErr false; EvData [62;120;10]%N] = [Err ENom; Err ENom; Err ENom].
+Proof. vm_compute. reflexivity. Qed.
+
+(* sticky parse error: `start` only moves on success; a request after the error sees the same text again *)
+Example polls_sticky_error :
+  jaspar_polls_e 3 (fun _ => 0) [EvData [62;120;10; 49;10]%N] = [Err ENom; Err ENom; Err ENom].
+Proof. vm_compute. reflexivity. Qed.
+
+(* an I/O error in the middle of a record: the bytes read so far stay in the buffer (Interrupted is
+   invisible); the next request slices `start..=start + n` with n = the bytes of THIS call only, i.e. a
+   truncated record: a parse error; the request after it (n = 0: the whole pending buffer) returns the record *)
+Example polls_io_error_mid_record :
+  jaspar_polls_e 4 (fun _ => 0)
+    [EvData [62;120;10; 49;32]%N; EvErr true; EvData [50;10]%N; EvErr false; EvData [51;32;52;10; 53;32;54;10; 55;32;56;10]%N]
+  = [Err EIo; Err ENom; Ok (Some {| rid := [120%N]; rdesc := None; rmatrix := [[1;3;7;5;0]; [2;4;8;6;0]]%N |}); Ok None].
+Proof. vm_compute. reflexivity. Qed.
+
+(* UniPROBE: a failed read_line keeps what it appended (valid UTF-8): the name "ID" survives the error *)
+Example polls_uniprobe_io_error :
+  uniprobe_polls_e Dna (fun _ => None) 3 [EvData [73;68]%N; EvErr false; EvData [10]%N] = [Err EIo; Err EInvalid; Ok None].
+Proof. vm_compute. reflexivity. Qed.
+
+(* ---------- the source still has the statement skeleton the models were written for ----------
+   (GenIoReader.v is regenerated from the three mod.rs and the two parse.rs on every run: read_until's
+   delimiter, the order of slice / decode / End test / parse / `start +=` / compaction, the Err arms that
+   return without touching `start` or the buffer, UniPROBE's line / buffer resets, the header literals) *)
+Theorem reader_skeleton_is_modelled :
+  gen_jaspar_next_events = model_jaspar_next_events /\ gen_jaspar16_next_events = model_jaspar_next_events /\
+  gen_jaspar_next_delim = model_jaspar_delim /\ gen_jaspar16_next_delim = model_jaspar_delim /\
+  gen_uniprobe_next_events = model_uniprobe_next_events /\
+  gen_jaspar_header_tag = model_header_tag /\ gen_jaspar16_header_tag = model_header_tag /\
+  gen_jaspar_header_until = model_header_until /\ gen_jaspar16_header_until = model_header_until.
+Proof. repeat split; reflexivity. Qed.
